@@ -4,13 +4,14 @@
 // external harness can drive the real objects, read-only views, and task gates that let the
 // harness decide the order in which the record store's spawned background bodies run.
 
+use crate::record_store_api::UnifiedRecordStore;
 use crate::replication_fetcher::ReplicationFetcher;
-use crate::{event::NetworkEvent, NodeRecordStore};
+use crate::{event::NetworkEvent, NetworkError, NodeRecordStore, SwarmDriver};
 use ant_evm::{QuotingMetrics, U256};
 use ant_protocol::{storage::RecordType, NetworkAddress};
 use libp2p::{
-    kad::{KBucketDistance as Distance, Record, RecordKey},
-    PeerId,
+    kad::{KBucketDistance as Distance, QueryId, Record, RecordKey},
+    Multiaddr, PeerId,
 };
 use std::collections::HashMap;
 use std::sync::Mutex;
@@ -208,4 +209,85 @@ impl VerifFetcher {
     ) -> bool {
         self.0.verif_expire_pending(key, record_type, holder)
     }
+}
+
+// ------------------------------------------------------------------------------------------
+// SwarmDriver: the real command / event handlers, callable without running the event loop
+// ------------------------------------------------------------------------------------------
+
+impl SwarmDriver {
+    pub fn verif_handle_local_cmd(&mut self, cmd: LocalSwarmCmd) -> Result<(), NetworkError> {
+        self.handle_local_cmd(cmd)
+    }
+
+    pub fn verif_handle_network_cmd(&mut self, cmd: NetworkSwarmCmd) -> Result<(), NetworkError> {
+        self.handle_network_cmd(cmd)
+    }
+
+    /// Feed a (synthetic) kad event to the real handler.
+    pub fn verif_handle_kad_event(&mut self, event: libp2p::kad::Event) -> Result<(), NetworkError> {
+        self.verif_kad_event(event)
+    }
+
+    /// The handler of an incoming `Cmd::Replicate { holder, keys }` (without the response channel).
+    pub fn verif_handle_replicate(
+        &mut self,
+        holder: NetworkAddress,
+        keys: Vec<(NetworkAddress, RecordType)>,
+    ) {
+        self.verif_add_keys_to_replication_fetcher(holder, keys)
+    }
+
+    pub fn verif_self_peer_id(&self) -> PeerId {
+        self.self_peer_id
+    }
+
+    /// Insert a peer into the routing table.
+    pub fn verif_add_peer(&mut self, peer: &PeerId, addr: Multiaddr) {
+        let _ = self.swarm.behaviour_mut().kademlia.add_address(peer, addr);
+    }
+
+    pub fn verif_node_store_mut(&mut self) -> Option<&mut NodeRecordStore> {
+        match self.swarm.behaviour_mut().kademlia.store_mut() {
+            UnifiedRecordStore::Node(store) => Some(store),
+            UnifiedRecordStore::Client(_) => None,
+        }
+    }
+
+    /// (query id, key, number of waiting callers, number of content versions seen) per pending read
+    pub fn verif_pending_get_record(&self) -> Vec<(QueryId, RecordKey, usize, usize)> {
+        self.pending_get_record
+            .iter()
+            .map(|(id, (key, senders, result_map, _cfg))| {
+                (*id, key.clone(), senders.len(), result_map.len())
+            })
+            .collect()
+    }
+
+    pub fn verif_closest_k_value_local_peers(&mut self) -> Vec<PeerId> {
+        self.get_closest_k_value_local_peers()
+    }
+
+    pub fn verif_replicate_candidates(&mut self, target: &NetworkAddress) -> Vec<PeerId> {
+        self.get_replicate_candidates(target)
+    }
+
+    /// Queue and in-flight set of the node's replication fetcher: (key, type, holder)
+    #[allow(clippy::type_complexity)]
+    pub fn verif_fetcher_view(
+        &self,
+    ) -> (
+        Vec<(RecordKey, RecordType, PeerId)>,
+        Vec<(RecordKey, RecordType, PeerId)>,
+    ) {
+        (
+            self.replication_fetcher.verif_to_be_fetched(),
+            self.replication_fetcher.verif_on_going_fetches(),
+        )
+    }
+}
+
+/// Pass-through to the private range filter used when choosing replication candidates.
+pub fn peers_in_range(peers: &[PeerId], address: &NetworkAddress, range: U256) -> Vec<PeerId> {
+    crate::cmd::verif_get_peers_in_range(peers, address, range)
 }
